@@ -352,8 +352,17 @@ def make_tu(blocks, extra_includes=(), prelude=""):
 # ---------------------------------------------------------------------------------------------
 # compile + run (content-addressed)
 # ---------------------------------------------------------------------------------------------
+_PGH = []
+
+
+def _pg_hash():
+    if not _PGH:
+        _PGH.append(hashlib.sha256(open(os.path.join(build.HARNESS, "pg.hpp"), "rb").read()).hexdigest())
+    return _PGH[0]
+
+
 def _bin_path(text, cfg):
-    key = hashlib.sha256((cfg + "\0" + text + "\0" + build.tree_hash() + "\0" + build.harness_hdr_hash()).encode()).hexdigest()[:32]
+    key = hashlib.sha256((cfg + "\0" + text + "\0" + build.tree_hash() + "\0" + _pg_hash()).encode()).hexdigest()[:32]
     return os.path.join(build.BUILD, "pg", key[:2], key)
 
 
